@@ -204,8 +204,35 @@ func decisionTable(start *ssa.BasicBlock, cfg dtConfig) []dtLeaf {
 						}
 						k, isConst := constInt(rv)
 						if !isConst {
-							okSub = false
-							break
+							// the class is read from a column of a package-level table indexed by the variable
+							okCol := false
+							if u, isLoad := rv.(*ssa.UnOp); isLoad && u.Op == token.MUL {
+								if fa, isFA := u.X.(*ssa.FieldAddr); isFA {
+									if ia, isIA := fa.X.(*ssa.IndexAddr); isIA && strip(ia.Index) == ssa.Value(g.Params[0]) {
+										if tg, isG := ia.X.(*ssa.Global); isG {
+											if col, n, ok := structTableColumnInts(tg, fieldName(fa.X.Type(), fa.Field)); ok {
+												okCol = true
+												for _, rg := range rangesOf(l.Set) {
+													for c := rg[0]; c <= rg[1]; c++ {
+														if c < 0 || c >= n {
+															okCol = false // an index outside the table on this path
+															break
+														}
+														if col[c] == kv {
+															eq = eq.Union(relang.NewSet(int32(c), int32(c)))
+														}
+													}
+												}
+											}
+										}
+									}
+								}
+							}
+							if !okCol {
+								okSub = false
+								break
+							}
+							continue
 						}
 						if k == kv {
 							eq = eq.Union(l.Set)
@@ -822,4 +849,58 @@ func structTableColumn(g *ssa.Global, field string) (*relang.Set, bool) {
 		}
 	}
 	return set, true
+}
+
+// structTableColumnInts: the integer (enum) values of column field of a package-level table of structs, by index;
+// elements that do not set the field have the zero value. n is the length of the table.
+func structTableColumnInts(g *ssa.Global, field string) (map[int64]int64, int64, bool) {
+	if curProgram == nil || g.Pkg == nil {
+		return nil, 0, false
+	}
+	if pk := curProgram.All[g.Pkg.Pkg.Path()]; pk != nil {
+		if vr, ok := g.Object().(*types.Var); ok && curProgram.assignedAnywhere(pk, vr) {
+			return nil, 0, false
+		}
+	}
+	lit, err := curProgram.VarLit(relOf(g.Pkg.Pkg.Path()), cname(g))
+	if err != nil || lit.Kind != "array" {
+		return nil, 0, false
+	}
+	arr, ok := g.Type().(*types.Pointer).Elem().Underlying().(*types.Array)
+	if !ok {
+		return nil, 0, false
+	}
+	out := map[int64]int64{}
+	for i, k := range lit.Keys {
+		idx, ok := k.Int()
+		v := lit.Vals[i]
+		if !ok || v.Kind != "struct" {
+			return nil, 0, false
+		}
+		out[idx] = 0
+		for j, fn := range v.Field {
+			if fn != field {
+				continue
+			}
+			n, ok := v.Vals[j].Int()
+			if !ok {
+				return nil, 0, false
+			}
+			out[idx] = n
+		}
+	}
+	return out, arr.Len(), true
+}
+
+// rangesOf: the intervals of a set (only used for small integer domains).
+func rangesOf(s *relang.Set) [][2]int64 {
+	var out [][2]int64
+	for i := 0; i+1 < len(s.R); i += 2 {
+		lo, hi := int64(s.R[i]), int64(s.R[i+1])
+		if hi-lo > 100000 {
+			hi = lo + 100000
+		}
+		out = append(out, [2]int64{lo, hi})
+	}
+	return out
 }
